@@ -547,8 +547,8 @@ impl<'a, C: SimCfg> Runner<'a, C> {
             Op::Concurrent { roots, share_tracked } => {
                 self.concurrent(roots, *share_tracked, None).await
             }
-            Op::ReadersWriter { sessions, readers } => {
-                self.readers_writer(sessions, readers).await
+            Op::ReadersWriter { sessions, readers, detach } => {
+                self.readers_writer(sessions, readers, *detach).await
             }
             Op::Faulted { op, fault } => self.faulted(op, fault).await,
         }
